@@ -1,6 +1,6 @@
 # replay of a solver counterexample against the real library (exit 1 = reproduces)
 import sys, warnings
-sys.path.insert(0, '/tmp/sr/adhoc')
+sys.path.insert(0, '/tmp/sr/C08-m1')
 warnings.simplefilter('ignore')
 import numpy as np
 from svgpathtools import *
@@ -14,7 +14,7 @@ def NOT_REPRODUCED(msg=''):
 
 
 import math
-rot, rx, ry, cx, cy, theta, delta = (53.13010235415598, 2.0, 1.0, -5e-12, -5e-12, -159.44395478042654, 305.75388725444674)
+rot, rx, ry, cx, cy, theta, delta = (53.13010235415598, 2.0, 1.0, -1e-11, -1e-11, 178.0, 355.0)
 phi = math.radians(rot)
 def pt(a):
     a = math.radians(a)
